@@ -39,24 +39,19 @@ def svcMalformedCode : RetCode :=
 def svcPositive (m : Header) (hasResponse : Bool) : Bool :=
   (hasResponse && decide (m.mt = MsgType.request))
 
--- UNTRANSLATED: ServiceInstance._send_offer not found (the model's own definition stands in; only the correspondence check ties it)
 def offerSuppressed (task remote : Option Nat) (canAnswer stop : Bool) : Bool :=
-  !stop && (task.isNone || (remote.isSome && !canAnswer))
+  (((!stop) && task.isNone) || ((!stop) && (!remote.isNone) && (!canAnswer)))
 
--- UNTRANSLATED: name self._state.task (the model's own definition stands in; only the correspondence check ties it)
 def subscribeRefused (task : Option Nat) (m : Bool) : Bool :=
-  task.isNone || !m
+  (task.isNone || (!m))
 
--- UNTRANSLATED: name self._state.past_initial_wait (the model's own definition stands in; only the correspondence check ties it)
 def instMatchesFind (canAnswer m : Bool) : Bool :=
-  canAnswer && m
+  (if (!canAnswer) = true then false else m)
 
--- UNTRANSLATED: shape of queue_send (the model's own definition stands in; only the correspondence check ties it)
 def queueImmediate (coll : Nat) : Bool :=
   decide (coll = 0)
 
--- UNTRANSLATED: shape of queue_send (the model's own definition stands in; only the correspondence check ties it)
 def queueNewWindow (qNone done : Bool) : Bool :=
-  qNone || done
+  (qNone || done)
 
 end Someip.Gen
